@@ -27,6 +27,8 @@ META["explanation"] += " R10.4 also checks the order of the two effects (the new
 META["explanation"] += " R10.10 filter mirror rule: on every path of the single-item handlers the change of the kept-index list's length equals the effect of the returned diff (entry added <=> PushFront / PushBack / Insert, removed <=> PopFront / PopBack / Remove, unchanged <=> Set or nothing)."
 META["explanation"] += ' R10.9 also decides the counter idiom (captured counter starting at 0, pushed for kept items before its increment). R10.11 source positions of a chunk of new items: an enumerate() whose indices reach the kept-index list sits below every position-changing adaptor; a running counter pushed onto the kept-index list does not start from that list (last kept index + 1 forgets rejected items).'
 META["explanation"] += ' R10.3 `+len`: the length added for Append / Reset must be that of the chunk the handler was given (a parameter, resolved at the use when the variable is re-bound later), not of a vector computed from it. R10.12 negative contract entry: no call of imbl::Vector::retain / FocusMut::{swap, pair, triplet} in eyeball-im and eyeball-im-util (known-bad in the pinned imbl 5.0.0; F9, repaired by 2cafcea).'
+META["explanation"] += ' R10.12 negative contract entry: no imbl Vector::retain, Vector::sort / sort_by / sort_by_key (recursive quicksort, depth linear in ties: F11) and no FocusMut::swap / pair / triplet (F9) anywhere in the three crates.'
+META["explanation"] += ' R10.4 bypass: a path that skips the index shift under a condition that does not mention the kept-index list is violated. R10.13 the position recorded for a pushed-back item is the source-length counter read before its increment (or after it, minus 1).'
 
 PAIR = lambda n: re.sub(r"_filter(_map)?$", "", n or "")
 
@@ -102,6 +104,7 @@ def run(ctx):
     r10_11(ctx)
     r10_12(ctx)
     r10_10(ctx, handlers)
+    r10_13(ctx, handlers)
     # R10.6
     for f, c, table, multi in ds:
         b = f.built
@@ -426,6 +429,11 @@ def r10_12(ctx):
         b = f.built
         if not b:
             continue
+        for blk, t in b.calls(r"^imbl::GenericVector::<.*>::(sort|sort_by|sort_by_key)$"):
+            n += 1
+            root = root_fn(F, f)
+            ctx.violated("R10.12", root, "no-imbl-sort", b.line_at((blk, 10 ** 6)),
+                         "`%s` sorts with imbl's `Vector::%s`, which in the pinned imbl 5.0.0 is a recursive quicksort whose depth is linear in the number of items that compare equal: a few thousand ties overflow the stack and abort the process (F11)" % (root.path, (t.get("callee") or "").split("::")[-1]))
         for blk, t in b.calls(r"^imbl::GenericVector::<.*>::retain$|^imbl::vector::FocusMut::<.*>::(swap|pair|triplet)$|^imbl::vector::focus::FocusMut::<.*>::(swap|pair|triplet)$"):
             n += 1
             root = root_fn(F, f)
@@ -433,7 +441,7 @@ def r10_12(ctx):
             ctx.violated("R10.12", root, "no-imbl-retain", b.line_at((blk, 10 ** 6)),
                          "`%s` uses imbl's `%s`, which in the pinned imbl 5.0.0 (FocusMut::swap / pair / triplet, and Vector::retain built on them) ignores the offset of a leaf chunk that was consumed from the front: on an ObservableVector after pop_front it drops / permutes items, so the result is not what the operation documents" % (root.path, what))
     if not n:
-        ctx.holds("R10.12", None, "no-imbl-retain", None, "no call of imbl::Vector::retain / FocusMut::{swap, pair, triplet} in eyeball-im and eyeball-im-util")
+        ctx.holds("R10.12", None, "no-imbl-retain", None, "no call of imbl::Vector::retain / sort* / FocusMut::{swap, pair, triplet} in eyeball-im and eyeball-im-util")
 
 
 def r10_11(ctx):
@@ -601,6 +609,14 @@ def bypass_guard(ctx, h, b, site, v):
                 continue
             if v == "Remove" and conds.cmp_holds(facts, "Le", is_last, is_idx):
                 continue   # the item at the removed index leaves, nothing behind it
+            # a guard that does not look at the kept-index list at all (the new value being rejected, a flag ..) cannot have established
+            # that no kept index lies at or behind the changed position: the items behind it move in the source whatever the guard says
+            about_kept = any(isinstance(f[1], tuple) and (mentions_field(f[1], "filtered_indices") or is_last(f[1])) for f in facts if len(f) > 1)
+            if not about_kept:
+                return ("a path returns without shifting the kept indices (bb%d bypassed) under a condition that does not depend on the kept-index list (%s): "
+                        "the items behind the changed position move in the source whether or not that condition holds, so their remembered positions are stale afterwards "
+                        "- a later Set / Remove addressing one of them is translated to the wrong view position" % (
+                            site, "; ".join(sorted({fmt(f[1], 3)[:60] for f in facts if len(f) > 1 and isinstance(f[1], tuple)}))[:160] or "unconditionally"))
             if v in ("Remove", "PopFront"):
                 # the kept list may also have just lost its only entry; anything else is not recognised
                 ctx.undecided("R10.4", h, "index-shift-bypass:%s" % v, b.line_at((path[-1], 0)), "a path bypasses the shift loop under a guard that is not recognised")
@@ -613,6 +629,91 @@ def bypass_guard(ctx, h, b, site, v):
             ctx.undecided("R10.4", h, "index-shift-bypass:%s" % v, b.line_at((path[-1], 0)), "a path bypasses the shift loop under a guard that is not recognised")
             return None
     return None
+
+
+def _read_loc_of_field(b, op, field, depth=0):
+    """location of the statement that reads `field` (through plain copies / moves / casts) to produce operand `op`, or None."""
+    if depth > 6 or op.get("k") not in ("move", "copy"):
+        return None
+    pl = op["place"]
+    whole, _ = b.defs
+    if pl["proj"]:
+        if last_field(pl) == field:
+            return ("here",)
+        # a capture of an (inlined) closure: `(*env.k)` where env was built as `closure { .., k: &local, .. }`
+        first = pl["proj"][0]
+        ds = whole.get(pl["l"], [])
+        hops = 0
+        while len(ds) == 1 and ds[0][1] == "assign" and ds[0][2]["k"] == "use" and ds[0][2]["op"].get("k") in ("move", "copy") and not ds[0][2]["op"]["place"]["proj"] and hops < 6:
+            ds = whole.get(ds[0][2]["op"]["place"]["l"], [])   # the environment moved into the (inlined) callee's parameter
+            hops += 1
+        if isinstance(first, dict) and "f" in first and len(ds) == 1 and ds[0][1] == "assign" and ds[0][2]["k"] == "agg" and ds[0][2].get("of") == "closure":
+            ops = ds[0][2]["ops"]
+            if first["f"] < len(ops):
+                cap = ops[first["f"]]
+                if cap.get("k") in ("move", "copy") and not cap["place"]["proj"]:
+                    cds = whole.get(cap["place"]["l"], [])
+                    if len(cds) == 1 and cds[0][1] == "assign" and cds[0][2]["k"] in ("ref", "raw"):
+                        return _read_loc_of_field(b, {"k": "copy", "place": cds[0][2]["place"]}, field, depth + 1)
+                return _read_loc_of_field(b, cap, field, depth + 1)
+        return None
+    ds = whole.get(pl["l"], [])
+    if len(ds) != 1:
+        return None
+    loc, kind, payload = ds[0]
+    if kind != "assign":
+        return None
+    rv = payload
+    if rv["k"] == "use":
+        o = rv["op"]
+        if o.get("k") in ("move", "copy") and o["place"]["proj"] and last_field(o["place"]) == field:
+            return loc
+        return _read_loc_of_field(b, o, field, depth + 1)
+    return None
+
+
+def r10_13(ctx, handlers):
+    """the entry recorded for a kept item is its position in the SOURCE: for a PushBack that is the source length *before* the push.
+    The handler keeps the source length in a counter it also increments: the value recorded is read before the increment (or read
+    after it and reduced by one). Read after the increment and recorded as it is, the new item's remembered position is one too
+    high - the emitted PushBack is still right, but a later Set / Remove / PopBack of that item is looked up at the wrong position."""
+    n = 0
+    for key, (h, vs) in handlers.items():
+        if "PushBack" not in vs or len(vs) != 1:
+            continue
+        b = inl(ctx.facts, h, desugar=True) or h.built
+        incs = [loc for loc, s_ in assigns_to_field(b, "original_len")]
+        for blk, t in b.calls(r"VecDeque::<usize.*>::push_back$"):
+            n += 1
+            where = b.line_at((blk, 10 ** 6))
+            op = t["args"][1]
+            e = b.expr_of_op(op)
+            if not mentions_field(e, "original_len"):
+                ctx.undecided("R10.13", h, "recorded-position:PushBack", where, "the recorded position `%s` is not derived from the source-length counter" % fmt(e, 3))
+                continue
+            arith = has_arith(e)
+            rl = _read_loc_of_field(b, op, "original_len")
+            if rl == ("here",):
+                rl = (blk, len(b.blocks[blk]["stmts"]))
+            if rl is None or not incs or arith:
+                if arith and rl is None:
+                    ctx.undecided("R10.13", h, "recorded-position:PushBack", where, "recorded position computed as `%s`" % fmt(e, 3))
+                    continue
+                if rl is None or not incs:
+                    ctx.undecided("R10.13", h, "recorded-position:PushBack", where, "read of the counter not located")
+                    continue
+            before = all((rl[0] == i[0] and rl[1] < i[1]) or (rl[0] != i[0] and b.dominates(rl[0], i[0])) for i in incs)
+            after = all((rl[0] == i[0] and rl[1] > i[1]) or (rl[0] != i[0] and b.dominates(i[0], rl[0])) for i in incs)
+            minus1 = bool(find_all(e, lambda y: y[0] == "bin" and y[1].startswith("Sub") and is_const_int(y[3], 1)))
+            if (before and not arith) or (after and minus1):
+                ctx.holds("R10.13", h, "recorded-position:PushBack", where, "the recorded position is the source length before the push (%s)" % ("read before the increment" if before else "read after it, minus 1"))
+            elif after and not arith:
+                ctx.violated("R10.13", h, "recorded-position:PushBack", where,
+                             "`%s` records the source-length counter *after* incrementing it as the new item's source position: the item pushed to the back sits at the old length, so its entry is one too high; "
+                             "the PushBack it emits is right, but the next Set / Remove / PopBack / Truncate that addresses the item by index does not find it (or finds a neighbour)" % h.path)
+            else:
+                ctx.undecided("R10.13", h, "recorded-position:PushBack", where, "order of the counter read and its increment not decided")
+    ctx.floor("R10.13", n, 1)
 
 
 KEPT_GROW = r"VecDeque::<.*>::(push_back|push_front|insert)$"
